@@ -1032,7 +1032,9 @@ void fraction_free_gauss_jordan_elimination(const DenseMatrix &A,
 
     B.m_ = A.m_;
 
-    for (i = 0; i < col; i++) {
+    // row i is the pivot row of column i: there is none beyond the last row
+    // (an augmented matrix has more columns than rows)
+    for (i = 0; i < col and i < row; i++) {
         if (i > 0)
             d = B.m_[i * col - col + i - 1];
         for (j = 0; j < row; j++)
